@@ -1924,6 +1924,64 @@ func runLifecycle(c lifecycleCase, sec *vh.Section) {
 		return d.DestTags.Line().String()
 	}
 	switch c.Variant {
+	case "stop-behind-first-batch", "stop-behind-later-batch":
+		// a clean stop while the pipe is behind: the batch is stored and notified but not yet readable (600 ms flush), the
+		// worker waits for it; Shutdown cancels the worker (the journals are synced at shutdown). After the restart the
+		// events are in the source; nothing is written any more.
+		srv.Stop()
+		srv2, err := lrsrv.Start(dir, lrsrv.Opts{WriteFlushMs: 600})
+		if err != nil {
+			res.Note("lifecycle: %v", err)
+			return
+		}
+		srv = srv2
+		r.srv = srv
+		name := "ps"
+		srv.Pipes.CreatePipe(pipe.Pipe{Name: name, TagsCond: "grp=g1"})
+		dest := destOf(name)
+		n0 := 0
+		if c.Variant == "stop-behind-later-batch" {
+			r.write(0, mkEvs("e", 0, 3), "direct")
+			waitDest(srv, dest, 3, 8*time.Second)
+			settle(srv, name, tl, dest)
+			n0 = 3
+		}
+		r.write(0, mkEvs("e", n0, 3), "direct")
+		time.Sleep(60 * time.Millisecond) // notified; not flushed
+		before := descLine(srv, name, tl)
+		srv.Stop()
+		srv3, err := lrsrv.Start(dir, lrsrv.Opts{WriteFlushMs: 40})
+		if err != nil {
+			res.Note("lifecycle: restart: %v", err)
+			return
+		}
+		srv = srv3
+		r.srv = srv
+		after := descLine(srv, name, tl)
+		stored := len(mustRead(srv, "select from {"+tl+"}"))
+		got1 := waitDest(srv, dest, n0+3, 2500*time.Millisecond) // no write: the pipe must catch up by itself
+		r.write(0, mkEvs("e", n0+3, 1), "direct")                // a later write
+		waitDest(srv, dest, n0+4, 4*time.Second)
+		settle(srv, name, tl, dest)
+		got2 := msgsOf(mustRead(srv, "select from "+dest))
+		var want []string
+		for i := 0; i < n0+4; i++ {
+			want = append(want, fmt.Sprintf("e%d", i))
+		}
+		if stored != n0+3 {
+			res.Note("lifecycle: the source holds %d events after the restart, %d were acknowledged (C01/C07)", stored, n0+3)
+			return
+		}
+		if got1 != n0+3 || strings.Join(got2, " ") != strings.Join(want, " ") {
+			kind := "stranded-after-restart"
+			if strings.Join(got2, " ") != strings.Join(want, " ") {
+				kind = "lost-after-restart"
+			}
+			res.SpecFail(vh.SpecFailure{Section: "lifecycle", Kind: kind, Input: c,
+				Impl: fmt.Sprintf("descriptor at the stop: %s, after the restart: %s; %d of %d events in the pipe partition 2.5 s after the restart without a write; after a later write: %v", before, after, got1, n0+3, got2),
+				Spec: fmt.Sprintf("%v — the first %d without waiting for a later write", want, n0+3), ImplEqModel: true, Finding: "F79",
+				What: "a clean stop while the pipe is behind its source (a notified batch not yet copied): after the restart nothing starts a worker; the events are copied only when a later write to that partition arrives — and a first batch whose descriptor was never saved is never copied"})
+		}
 	case "recreate-parked", "recreate-free", "recreate-after-removal":
 		name := "pr"
 		if c.Name != "" {
@@ -1940,9 +1998,14 @@ func runLifecycle(c lifecycleCase, sec *vh.Section) {
 		settle(srv, name, tl, dest)
 		release := make(chan struct{})
 		arrived := make(chan struct{}, 4)
+		var cleanupReached int32 // the clean-up goroutine has passed the point right before the removal of the positions file
 		if c.Variant == "recreate-parked" {
 			// the deleted pipe's clean-up goroutine (`go p.delete()`) is held before it removes the positions file
 			verifhook.Set("pipe.delete.beforeRemove", func() { arrived <- struct{}{}; <-release })
+			defer verifhook.Set("pipe.delete.beforeRemove", nil)
+		} else {
+			// free-running: only observe whether the clean-up got there before the re-creation started
+			verifhook.Set("pipe.delete.beforeRemove", func() { atomic.StoreInt32(&cleanupReached, 1) })
 			defer verifhook.Set("pipe.delete.beforeRemove", nil)
 		}
 		if err := srv.Pipes.DeletePipe(name); err != nil {
@@ -1965,6 +2028,7 @@ func runLifecycle(c lifecycleCase, sec *vh.Section) {
 			srv.FlushWait()
 		}
 		// the same name again: a NEW pipe, created now
+		cleanupFirst := atomic.LoadInt32(&cleanupReached) == 1
 		if _, err := srv.Pipes.CreatePipe(pipe.Pipe{Name: name, TagsCond: "grp=g1"}); err != nil {
 			res.Note("lifecycle: re-create: %v", err)
 			return
@@ -1984,8 +2048,8 @@ func runLifecycle(c lifecycleCase, sec *vh.Section) {
 			finding := ""
 			// class of F74: a pipe created under the name of a deleted pipe BEFORE that pipe's asynchronous clean-up has removed
 			// its positions file (the clean-up goroutine is parked). Inheritance after the clean-up has run is something else.
-			if inherited != "none" && c.Variant == "recreate-parked" {
-				finding = "F74"
+			if inherited != "none" && (c.Variant == "recreate-parked" || (c.Variant == "recreate-free" && !cleanupFirst)) {
+				finding = "F74" // free-running: the re-creation started before the clean-up goroutine had reached the removal
 			}
 			res.SpecFail(vh.SpecFailure{Section: "lifecycle", Kind: "recreated-pipe-inherits-positions", Input: c,
 				Impl: fmt.Sprintf("pipe partition: %v; descriptor of the source right after the re-creation: %s", got, inherited), Spec: fmt.Sprintf("%v; no descriptor", want),
@@ -2059,7 +2123,7 @@ func sectionLifecycle(corpus []lifecycleCase) {
 		"(a) a pipe deleted and created again under the same name: with the deleted pipe's clean-up goroutine parked before it removes the positions file (hook pipe.delete.beforeRemove), free-running right after DeletePipe returned, and after the clean-up has run; events written while no pipe existed must never be copied and the new pipe must know nothing about the source before its first notification; (b) a pipe whose source condition names another pipe's partition, or is empty: what the first pipe writes there vs what a client writes there; runs one case at a time (process-global hook); non-trivial = every case")
 	seen := map[string]bool{}
 	cs := []lifecycleCase{}
-	all := append(corpus, lifecycleCase{Variant: "recreate-parked"}, lifecycleCase{Variant: "recreate-free"}, lifecycleCase{Variant: "recreate-after-removal"},
+	all := append(corpus, lifecycleCase{Variant: "stop-behind-first-batch"}, lifecycleCase{Variant: "stop-behind-later-batch"}, lifecycleCase{Variant: "recreate-parked"}, lifecycleCase{Variant: "recreate-free"}, lifecycleCase{Variant: "recreate-after-removal"},
 		lifecycleCase{Variant: "chain-named"}, lifecycleCase{Variant: "chain-all"}, lifecycleCase{Variant: "client-writes-pipe-partition"})
 	// (names whose tag line needs quoting — blanks, non-ASCII — are C08's business: the pipe's partition could not be queried)
 	for _, n := range []string{"p_r", "p:r", "p/r", "p.dat", "p-r"} {
